@@ -7,7 +7,13 @@ import vf
 
 # tokens that stand for other segments after the gateway's one URL-decoding
 DEC = {"%2e%2e": [".."], "%2E%2E": [".."], ".%2e": [".."], "a%2Fb": ["a", "b"], "..%2Fb2": ["..", "b2"],
-       "..%2Foutside%2Fsecret": ["..", "outside", "secret"]}
+       "..%2Foutside%2Fsecret": ["..", "outside", "secret"],
+       # double-encoded by the client: after the gateway's decoding the NAME still contains the text of an escape
+       "%252e%252e": ["%2e%2e"], "a%252Fb": ["a%2Fb"], "x%252F..%252F..%252Fb2%252Fobj": ["x%2F..%2F..%2Fb2%2Fobj"],
+       "%252e%252e%252Fb2%252Fobj": ["%2e%2e%2Fb2%2Fobj"]}
+# what a SECOND decoding would make of such a name (only handlers that paste names into filer URLs unescaped do that)
+DEC2 = {"%2e%2e": [".."], "a%2Fb": ["a", "b"], "x%2F..%2F..%2Fb2%2Fobj": ["x", "..", "..", "b2", "obj"],
+        "%2e%2e%2Fb2%2Fobj": ["..", "b2", "obj"]}
 KEYS = [
     ["obj"], ["a", "x"], [".."], [".."] + ["x"], ["a", "..", "..", "x"], ["a", "..", "..", "..", "etc"], ["", "x"],
     ["a", "", "b"], ["a%2Fb"], ["%2e%2e", "%2e%2e", "x"], [".uploads", "u1", "0001.part"], ["a", ""], ["obj", ""],
@@ -16,13 +22,19 @@ KEYS = [
     ["..", "b2", ".uploads", "u2", "0001.part"], ["a", "..", ".uploads", "u1", "0001.part"], ["."], [".", "obj"],
     ["..", "..", "outside", "dir"], ["..", "..", "outside"], ["..", "b2"], ["..", "b2", "newkey"], ["..", "..", "newtop"],
     ["..", "b1", "obj"],
+    # literal percent-escapes in the name (double-encoded on the wire): ordinary names inside the bucket
+    ["%252e%252e", "b2", "obj"], ["%252e%252e", "%252e%252e", "outside", "secret"], ["x%252F..%252F..%252Fb2%252Fobj"],
+    ["%252e%252e%252Fb2%252Fobj"], ["a%252Fb"], ["%252e%252e"], ["%252e%252e", "b2", "newkey"], ["a", "%252e%252e", "obj"],
+    ["%252e%252e", "b2", ".uploads", "u2", "0001.part"],
 ]
-ALPHABET = ["..", "a", "", "b2", "%2e%2e", ".uploads"]
+ALPHABET = ["..", "a", "", "b2", "%2e%2e", ".uploads", "%252e%252e"]
 UIDS = [["u1"], ["..", "x"], ["a", "b"], ["..", ".."], ["..", "..", "..", "outside"], ["..", "..", "b2"], ["..", "obj"],
-        ["..", "a"], ["nosuch"], ["..", "..", "b2", ".uploads", "u2"], ["u1", ".."], ["."], ["..", "..", "..", "outside", "dir"]]
+        ["..", "a"], ["nosuch"], ["..", "..", "b2", ".uploads", "u2"], ["u1", ".."], ["."], ["..", "..", "..", "outside", "dir"],
+        ["%2e%2e", "%2e%2e", "b2"], ["%2e%2e", "%2e%2e", "%2e%2e", "outside"]]
 SRCS = [["b1", "obj"], ["b2", "obj"], ["", "b2", "obj"], ["..", "outside", "secret"], ["b1", "..", "b2", "obj"],
         ["b1", "..", "..", "outside", "secret"], ["b1", ".uploads", "u1", "0001.part"], ["b2", ".uploads", "u2", "0001.part"],
-        ["..%2Foutside%2Fsecret"], ["%2e%2e", "outside", "secret"], ["b2", "..", "..", "outside", "secret"], ["b1", "a", "x"]]
+        ["..%2Foutside%2Fsecret"], ["%2e%2e", "outside", "secret"], ["b2", "..", "..", "outside", "secret"], ["b1", "a", "x"],
+        ["%252e%252e", "outside", "secret"], ["b2", "%252e%252e", "%252e%252e", "outside", "secret"], ["b1", "%252e%252e", "b2", "obj"]]
 DKEYS = [["k"], ["obj"], [".."], ["..", "b2", "obj"], ["..", "..", "outside", "secret"], ["a", "x"],
          [".uploads", "u1", "0001.part"], [".uploads"], ["a", "..", "..", "b2"], ["..", "..", "outside", "dir", "f"],
          ["..", "b2"], ["a", "..", "obj"], ["", "obj"], ["..", "..", "outside"]]
@@ -44,7 +56,8 @@ def consts(ctx, maxops):
     else:
         r = random.Random(ctx.seed)
         dsets += [[r.choice(DKEYS), r.choice(DKEYS)] for _ in range(12)]
-    return {"B": "b1", "Dec": dec, "Keys": {tup(k) for k in KEYS}, "Uids": {tup(u) for u in UIDS},
+    dec2 = vf.Raw("(" + " @@ ".join('%s :> %s' % (vf.tla_lit(k), vf.tla_lit(tuple(v))) for k, v in DEC2.items()) + ")")
+    return {"B": "b1", "Dec": dec, "Dec2": dec2, "Keys": {tup(k) for k in KEYS}, "Uids": {tup(u) for u in UIDS},
             "Srcs": {tup(s) for s in SRCS}, "DKeySets": {tup(d) for d in dsets},
             "Prefixes": {tup(p) for p in PREFIXES}, "Alphabet": set(ALPHABET),
             "MaxLen": 3 if ctx.thorough else 2, "MaxOps": maxops}
@@ -108,7 +121,7 @@ def run(ctx):
     ctx.judge("S3ContainmentTrace", trace, "trace_base.cfg", c,
               nontrivial=lambda e: any('"st":' in x for x in e), mutate=mutate)
     ctx.rule = ("requests = TLC-enumerated grammar: 11 key routes x (curated hostile keys + all token sequences up to "
-                "length 2 (thorough 3) over {.., a, empty, b2, %2e%2e, .uploads}), 5 upload-id routes x 13 upload ids, "
+                "length 2 (thorough 3) over {.., a, empty, b2, %2e%2e, .uploads, %252e%252e}; double-encoded names are literal names), 5 upload-id routes x 13 upload ids, "
                 "2 copy routes x 12 copy sources, batch deletes of 1-2 keys, 6 bucket routes, 2 list routes x 10 hostile prefixes x delimiter; each sent to a real "
                 "unauthenticated gateway with a second bucket and sentinels outside; non-trivial = some filer call was "
                 "made; distinct by hash of the recorded execution")
